@@ -63,6 +63,26 @@ CHECKS = {
             "binary64-exact inputs and via source-over-Fractions, plus a 1e-9 float test); min-ANN float termination is a test.",
             "translator (Python AST -> Lean, regenerated every run) + Lean 4 proof (ring/linarith/decide; compiler-correctness induction) + "
             "exact-arithmetic correspondence", "6/C16", ["Props.C16Ann", "drv_c16ann"]),
+    "C01": ("proof",
+            "Lean theorems for ALL valid instances, ALL signed permutations with repetitions, ALL prior contents of the destination and "
+            "scratch arrays: both improved-bottom-left decoders stay inside their arrays and return a packing that satisfies the shared "
+            "feasibility specification Pack.Feasible (inside the bin, pairwise non-overlapping per bin, ids with prescribed multiplicities "
+            "and dimensions up to rotation, bins 1..k all used, reported count = k); the move loop terminates (fuel never cuts it short); "
+            "forced rotation always fits; all stored values incl. the transient start position fit the dtype the instance selects. Proof by "
+            "loop invariants over the permutation prefix (window covers exactly the rows of a bin). Tie: correspondence of all six columns + "
+            "n_bins with dirty destinations/scratch and reused encoder objects, exhaustive over all signed permutations of small instances.",
+            TB + "rows >= i of the destination are never read (visible in loop bounds, exercised by dirty destinations); numba int64 "
+            "arithmetic on loaded values; huge bins are only constructible when thin (constructor cost).",
+            "Lean 4 proof (geometric move lemmas with omega, invariant induction over the permutation) + correspondence", "6/C01"),
+    "C20": ("proof",
+            "19 Lean theorems (core only): de-duplication/mapping clause, positional distances |i-j|, and all flow clauses (zero diagonal, "
+            "zero beyond horizon, equal on ties, antitone; plus positivity/strictness inside the horizon) for every square integer distance "
+            "matrix, integer flow powers 1..99 and any horizon; swap distance = n - cycles = minimum number of transpositions (upper bound "
+            "constructive, lower bound by orbit merging) for all lengths; no OOB on permutations. Tie: correspondence over exhaustive small "
+            "distance tables, 8 distance functions, both rank paths, all permutation pairs up to length 5/6, BFS minimum as extra enumeration.",
+            TB + "scipy rankdata modelled by doubled ranks, np.argsort, float pow exact below 2^53; float flow powers and distances >= 2^63 by "
+            "testing only.",
+            "Lean 4 proof (orbit/class counting for transpositions, rank monotonicity) + correspondence", "6/C20"),
 }
 NOT_YET = "check not built yet (work in progress; see DESIGN.md section 6)"
 
